@@ -120,6 +120,11 @@ def check_guard(ctx, fi, var):
                             and isinstance(left.left, ast.Name) and isinstance(left.right, ast.Name):
                         old, new = left.left.id, left.right.id
                         cand = U(s.value) if len(s.targets) == 1 and isinstance(s.targets[0], ast.Name) else None
+                        if len(s.targets) == 1 and isinstance(s.targets[0], ast.Tuple) and isinstance(s.value, ast.Tuple) \
+                                and len(s.targets[0].elts) == len(s.value.elts):
+                            for tg_, vv_ in zip(s.targets[0].elts, s.value.elts):       # a, b = b, a: the component bound to the iterate
+                                if isinstance(tg_, ast.Name) and tg_.id == var:
+                                    cand = U(vv_)
                         # new loss must be the loss evaluated at exp(candidate)
                         d = defs.get(new)
                         at = None
@@ -142,6 +147,136 @@ def check_guard(ctx, fi, var):
                                % (U(t), new, 'is' if evaluated_at_cand else 'is NOT', cand, old, 'is' if upd else 'is NOT'))
                 ctx.ob('guarded-replacement', fi, s, ok, why)
     ctx.floor('assignments of the returned iterate inside the loop', n, 1)
+    check_iterate_storage(ctx, fi, var, loops)
+
+
+def check_iterate_storage(ctx, fi, var, loops):
+    """the accepted iterate may only change by the guarded replacement: no in-place write (`out=`, `+=`, slice store) may go to an array
+    that can be the iterate's own storage.  May-alias classes of the local arrays, iterated around the loop."""
+    FRESH_CALLS = ('exp', 'log', 'empty_like', 'zeros_like', 'ones_like', 'copy', 'array', 'zeros', 'ones', 'empty', 'subtract', 'add', 'multiply')
+
+    def fresh(e):
+        if isinstance(e, (ast.BinOp, ast.UnaryOp, ast.Constant)):
+            return True
+        if isinstance(e, ast.Call):
+            if any(k.arg == 'out' for k in e.keywords):
+                return False
+            return U(e.func).split('.')[-1] in FRESH_CALLS or (isinstance(e.func, ast.Attribute) and e.func.attr == 'copy')
+        return False
+
+    universe = sorted({n.id for n in ast.walk(fi.node) if isinstance(n, ast.Name) and isinstance(n.ctx, ast.Store)} | set(fi.params))
+
+    def pair(a, b):
+        return frozenset((a, b))
+
+    def assign(D, binds):
+        """binds: [(name, ('fresh',) | ('name', y) | ('unknown',))], simultaneous.  D: set of must-be-distinct pairs"""
+        old = set(D)
+        targets = {k for k, _ in binds}
+        D -= {p_ for p_ in D if p_ & targets}
+        src = dict(binds)
+
+        def origin(n):
+            return src[n] if n in src else ('name', n)
+        for k, how in binds:
+            for z in universe:
+                if z == k:
+                    continue
+                oz = origin(z)
+                if how[0] == 'fresh' or oz[0] == 'fresh':
+                    ok = True
+                elif how[0] == 'unknown' or oz[0] == 'unknown':
+                    ok = False
+                else:
+                    ok = how[1] != oz[1] and pair(how[1], oz[1]) in old
+                if ok:
+                    D.add(pair(k, z))
+
+    def step(stmts, D, report):
+        for st in stmts:
+            if isinstance(st, ast.Assign):
+                tg = st.targets[0] if len(st.targets) == 1 else None
+                pairs_ = []
+                if isinstance(tg, ast.Tuple) and isinstance(st.value, ast.Tuple) and len(tg.elts) == len(st.value.elts):
+                    pairs_ = list(zip(tg.elts, st.value.elts))
+                elif isinstance(tg, ast.Tuple):
+                    pairs_ = [(e, None) for e in tg.elts]
+                elif tg is not None:
+                    pairs_ = [(tg, st.value)]
+                binds = []
+                for t_, v_ in pairs_:
+                    if isinstance(t_, ast.Name):
+                        if isinstance(v_, ast.Name):
+                            binds.append((t_.id, ('name', v_.id)))
+                        elif v_ is not None and fresh(v_):
+                            binds.append((t_.id, ('fresh',)))
+                        elif v_ is None and isinstance(st.value, ast.Call):
+                            binds.append((t_.id, ('fresh',)))          # results of a call unpacked: new objects (loss, gradient)
+                        else:
+                            binds.append((t_.id, ('unknown',)))
+                    elif isinstance(t_, ast.Subscript) and isinstance(t_.value, ast.Name):
+                        write(t_.value.id, st, D, report)
+                for c in ast.walk(st.value):
+                    if isinstance(c, ast.Call):
+                        for k in c.keywords:
+                            if k.arg == 'out' and isinstance(k.value, ast.Name):
+                                write(k.value.id, st, D, report)
+                if binds:
+                    assign(D, binds)
+            elif isinstance(st, ast.AugAssign) and isinstance(st.target, ast.Name):
+                write(st.target.id, st, D, report)
+            elif isinstance(st, ast.AugAssign) and isinstance(st.target, ast.Subscript) and isinstance(st.target.value, ast.Name):
+                write(st.target.value.id, st, D, report)
+            elif isinstance(st, ast.Expr):
+                for c in ast.walk(st.value):
+                    if isinstance(c, ast.Call):
+                        for k in c.keywords:
+                            if k.arg == 'out' and isinstance(k.value, ast.Name):
+                                write(k.value.id, st, D, report)
+            elif isinstance(st, ast.If):
+                d1, d2 = set(D), set(D)
+                step(st.body, d1, report)
+                step(st.orelse, d2, report)
+                D.clear()
+                D |= d1 & d2
+            elif isinstance(st, (ast.For, ast.While)):
+                for _ in range(6):
+                    before = set(D)
+                    body_d = set(D)
+                    step(st.body, body_d, [])
+                    D &= body_d
+                    if D == before:
+                        break
+                step(st.body, set(D), report)
+
+    def write(name, st, D, report):
+        if name == var:
+            return            # a direct in-place update of the iterate is judged by guarded-replacement / the log-space rules
+        if pair(name, var) not in D:
+            report.append((st, name))
+    report = []
+    step(fi.body, set(), report)
+    seen = set()
+    n = 0
+    for st in ast.walk(fi.node):
+        wr = None
+        if isinstance(st, ast.AugAssign) and isinstance(st.target, ast.Name) and st.target.id != var:
+            wr = st.target.id
+        elif isinstance(st, ast.Call) and any(k.arg == 'out' and isinstance(k.value, ast.Name) and k.value.id != var for k in st.keywords):
+            wr = [k.value.id for k in st.keywords if k.arg == 'out'][0]
+        if wr is None or not any(lp is st or st in list(ast.walk(lp)) for lp in loops):
+            continue
+        n += 1
+        bad = [nm for s_, nm in report if s_ is st or st in list(ast.walk(s_))]
+        key = (getattr(st, 'lineno', 0), getattr(st, 'col_offset', 0))
+        if key in seen:
+            continue
+        seen.add(key)
+        ctx.ob('guarded-replacement', fi, st, not bad,
+               'in-place write to `%s`: %s' % (wr, 'a buffer distinct from the iterate `%s`' % var if not bad else
+                                              'after an accepted step `%s` and `%s` can be one array, so this write changes the current iterate although the '
+                                              'trial step has not been accepted (loss and gradient then belong to another point)' % (var, wr)),
+               construct='storage of the iterate vs `%s`' % U(st)[:50])
 
 
 def names_assigned(stmt):
